@@ -32,6 +32,7 @@ Inductive op :=
 | DPartialTucker (shape rank modes : list nat)
 | DTuckerFixed (shape rank fixed : list nat)
 (* canonical form evaluated exactly on the implementation's outputs (floats as exact rationals) *)
+| DDesc (d : desc)            (* a loop skeleton read off the source: does it satisfy the hypothesis of C08_gen_run_normalised? *)
 | QOrth (k : nat) (M : list Q) (tol : Q)
 | QTucker (shape ranks : list nat) (X core : list Q) (fs : list (list Q)) (tol_orth tol_proj : Q)
 | QCpNorm (R : nat) (w : option (list Q)) (fs scales : list (list Q)) (tol : Q) (wout : list Q) (fout : list (list Q)).
@@ -80,6 +81,7 @@ Definition run (o : op) : res (list (list nat)) :=
           [if ends_normalised t then 1 else 0]; [if any_normalise t then 1 else 0]]
   | DPartialTucker shape rank modes => partial_tucker shape rank modes
   | DTuckerFixed shape rank fixed => tucker_fixed shape rank fixed
+  | DDesc d => Ok [[if desc_ok d then 1 else 0]]
   | QOrth k M tol => Ok [[if orth_ok k M tol then 1 else 0]]
   | QTucker shape ranks X core fs t1 t2 => Ok [[if tucker_ok shape ranks X core fs t1 t2 then 1 else 0]]
   | QCpNorm R w fs scales tol wout fout =>
